@@ -88,6 +88,26 @@ def _n1(run: Run, w: World) -> None:
             ok = True
     if not ok:
         run.violate("N1", f"{v.qual}:identity", v.mod, v.fn, "VectorSymbol._hashable_content no longer contains id(self): equal-looking vector symbols would compare equal")
+    # no constructor of an identity-carrying class is cached, and none of these classes redefines equality / hashing
+    ident_classes = [(SYMS, "DimensionSymbol"), (SYMS, "Symbol"), (SYMS, "IndexedSymbol"), (SYMS, "Function"),
+                     ("symplyphysics.core.symbols.quantities", "Quantity"), ("symplyphysics.core.coordinate_systems.coordinate_systems", "CoordinateSystem"),
+                     ("symplyphysics.core.experimental.vectors", "VectorSymbol"), ("symplyphysics.core.experimental.vectors", "VectorFunction")]
+    for modname, cname in ident_classes:
+        m = run.src.need(modname)
+        c = next((x for x in m.tree.body if isinstance(x, ast.ClassDef) and x.name == cname), None)
+        run.require(c is not None, f"class {modname}.{cname} not found")
+        for meth in [x for x in c.body if isinstance(x, ast.FunctionDef)]:
+            if meth.name in ("__new__", "__init__", "__call__"):
+                run.ob("N1", f"{cname}.{meth.name}:uncached")
+                for d in meth.decorator_list:
+                    dn = (dotted(d.func) if isinstance(d, ast.Call) else dotted(d)) or ""
+                    if dn.split(".")[-1] in ("cacheit", "lru_cache", "cache", "cached", "memoize", "sym_cacheit"):
+                        run.violate("N1", f"{modname}:{cname}.{meth.name}:cached", m, meth,
+                                    f"{cname}.{meth.name} is memoised ({dn}): two creations with equal arguments (e.g. equal display names) return ONE object")
+            if meth.name in ("__eq__", "__hash__", "_hashable_content", "__ne__") and not (cname == "VectorSymbol" and meth.name == "_hashable_content"):
+                run.ob("N1", f"{cname}.{meth.name}")
+                run.violate("N1", f"{modname}:{cname}.{meth.name}:identity-override", m, meth,
+                            f"{cname} redefines {meth.name}: object identity of library symbols must come from the fresh SymPy name only")
     vn = Fn(w, "symplyphysics.core.experimental.vectors", "VectorSymbol.__new__")
     run.ob("N1", "VectorSymbol.__new__")
     for r in vn.cfg.returns():
